@@ -14,7 +14,8 @@
 (* The property leaves open WHICH language system a request tag selects    *)
 (* (and how a minimum+override kern subtable is read) but demands one      *)
 (* choice: cg/cp map a request tag to the language systems that explain    *)
-(* every answer seen so far for that tag, rds the kern readings.  An event *)
+(* every answer seen so far for that tag, rds the readings (of the whole   *)
+(* trace: one implementation, one reading).  An event                      *)
 (* is accepted iff some choice still explains all its answers (Strict).    *)
 (* With Strict = FALSE each answer may be explained by its own choice:     *)
 (* used only to classify a rejected case (unstable choice / wrong result). *)
@@ -44,7 +45,8 @@ Narrow(c, tag, S) == [t \in DOMAIN c \cup {tag} |-> IF t = tag THEN S ELSE c[t]]
 
 Reset ==
   /\ Is("reset")
-  /\ F' = E.font /\ cg' = <<>> /\ cp' = <<>> /\ rds' = Readings
+  /\ F' = E.font /\ cg' = <<>> /\ cp' = <<>>
+  /\ rds' = rds            \* a reading is a trait of the implementation, not of a file: never reset
   /\ Consume
 
 \* feature selection: in range, ascending, no duplicates, required feature, switches -
